@@ -83,66 +83,56 @@ Definition f64_cell (x : F64.t) : cell Q :=
   | _ => CFin (f64_to_Q x)
   end.
 
-(* ---------- exact specification ---------- *)
+(* ---------- exact specification ----------
+   Symbols of a word are drawn independently with the weights [bg]; S is the sum of
+   the selected cells (a word through a -inf cell scores -inf and never reaches a
+   rational t); D is the sum of the selected discretised cells (i32::MIN = symbol
+   skipped by the code).  Tails are defined by recursion over the rows, first row
+   first (the order in which the code convolves):
+     P(X_1 + ... + X_n + X_{n+1} >= t) = sum_a b_a * P(X_1 + ... + X_n >= t - x_{n+1,a}). *)
 
 Fixpoint Qsum (l : list Q) : Q :=
   match l with [] => 0 | x :: r => x + Qsum r end.
 
-(* P(S >= t): S = sum of the cells selected by a word whose symbols are drawn
-   independently with weights [bg]; a word through a -inf cell scores -inf and
-   never reaches a rational t *)
-Fixpoint tail_exact (m : list (list (cell Q))) (bg : list Q) (t : Q) : Q :=
-  match m with
-  | [] => if Qle_bool t 0 then 1 else 0
-  | row :: rest =>
-      Qsum (map (fun cb => match fst cb with
-                           | CFin x => snd cb * tail_exact rest bg (t - x)
-                           | CNInf => 0
-                           end) (combine row bg))
-  end.
+Definition base_tail (t : Q) : Q := if Qle_bool t 0 then 1 else 0.
 
-(* total weight of the words without a -inf cell *)
-Fixpoint mass_exact (m : list (list (cell Q))) (bg : list Q) : Q :=
-  match m with
-  | [] => 1
-  | row :: rest =>
-      Qsum (map (fun cb => match fst cb with
-                           | CFin _ => snd cb * mass_exact rest bg
-                           | CNInf => 0
-                           end) (combine row bg))
-  end.
+Definition tail_step (bg : list Q) (F : Q -> Q) (row : list (cell Q)) (t : Q) : Q :=
+  Qsum (map (fun cb => match fst cb with
+                       | CFin x => snd cb * F (t - x)
+                       | CNInf => 0
+                       end) (combine row bg)).
 
-(* P(D = k) and P(D >= k) for the discretised matrix (i32::MIN = skipped symbol) *)
-Fixpoint pmf (data : list (list Z)) (bg : list Q) (k : Z) : Q :=
-  match data with
-  | [] => if (k =? 0)%Z then 1 else 0
-  | row :: rest =>
-      Qsum (map (fun sb => if (fst sb =? i32_min)%Z then 0
-                           else snd sb * pmf rest bg (k - fst sb)) (combine row bg))
-  end.
+(* P(S >= t) *)
+Definition tail_exact (m : list (list (cell Q))) (bg : list Q) : Q -> Q :=
+  fold_left (tail_step bg) m base_tail.
 
-Fixpoint tailD (data : list (list Z)) (bg : list Q) (k : Z) : Q :=
-  match data with
-  | [] => if (k <=? 0)%Z then 1 else 0
-  | row :: rest =>
-      Qsum (map (fun sb => if (fst sb =? i32_min)%Z then 0
-                           else snd sb * tailD rest bg (k - fst sb)) (combine row bg))
-  end.
+(* weight of the symbols of a row whose cell is finite *)
+Definition row_mass (bg : list Q) (row : list (cell Q)) : Q :=
+  Qsum (map (fun cb => match fst cb with CFin _ => snd cb | CNInf => 0 end) (combine row bg)).
+
+Definition base_tailD (k : Z) : Q := if (k <=? 0)%Z then 1 else 0.
+
+Definition tailD_step (bg : list Q) (F : Z -> Q) (row : list Z) (k : Z) : Q :=
+  Qsum (map (fun sb => if (fst sb =? i32_min)%Z then 0 else snd sb * F (k - fst sb)%Z) (combine row bg)).
+
+(* P(D >= k) and P(D = k) *)
+Definition tailD (data : list (list Z)) (bg : list Q) : Z -> Q :=
+  fold_left (tailD_step bg) data base_tailD.
+Definition pmfD (data : list (list Z)) (bg : list Q) (k : Z) : Q :=
+  tailD data bg k - tailD data bg (k + 1).
 
 (* the same tail through an explicit table of all words (score, weight); symbols of
-   weight zero are dropped, values are kept reduced: this is what the driver runs *)
-Fixpoint word_table (m : list (list (cell Q))) (bg : list Q) : list (Q * Q) :=
-  match m with
-  | [] => [(0, 1)]
-  | row :: rest =>
-      let tab := word_table rest bg in
-      flat_map (fun cb => match fst cb with
-                          | CFin x =>
-                              if Qeq_bool (snd cb) 0 then []
-                              else map (fun sp => (Qred (x + fst sp), Qred (snd cb * snd sp))) tab
-                          | CNInf => []
-                          end) (combine row bg)
-  end.
+   weight zero are dropped, values are kept reduced *)
+Definition table_step (bg : list Q) (tab : list (Q * Q)) (row : list (cell Q)) : list (Q * Q) :=
+  flat_map (fun cb => match fst cb with
+                      | CFin x =>
+                          if Qeq_bool (snd cb) 0 then []
+                          else map (fun sp => (Qred (fst sp + x), Qred (snd cb * snd sp))) tab
+                      | CNInf => []
+                      end) (combine row bg).
+
+Definition word_table (m : list (list (cell Q))) (bg : list Q) : list (Q * Q) :=
+  fold_left (table_step bg) m [(0, 1)].
 
 Fixpoint tail_tab (tab : list (Q * Q)) (t : Q) (acc : Q) : Q :=
   match tab with
@@ -226,18 +216,16 @@ Definition dy_cells (k : Z) (m : list (list (option (Z * Z)))) : list (list (opt
 
 Definition dy_value (k : Z) (z : Z) : Q := inject_Z z / inject_Z (2 ^ k).
 
-Fixpoint word_tableZ (m : list (list (option Z))) (bg : list Z) : list (Z * Z) :=
-  match m with
-  | [] => [(0, 1)%Z]
-  | row :: rest =>
-      let tab := word_tableZ rest bg in
-      flat_map (fun cb => match fst cb with
-                          | Some x =>
-                              if (snd cb =? 0)%Z then []
-                              else map (fun sp => (x + fst sp, snd cb * snd sp)%Z) tab
-                          | None => []
-                          end) (combine row bg)
-  end.
+Definition table_stepZ (bg : list Z) (tab : list (Z * Z)) (row : list (option Z)) : list (Z * Z) :=
+  flat_map (fun cb => match fst cb with
+                      | Some x =>
+                          if (snd cb =? 0)%Z then []
+                          else map (fun sp => (fst sp + x, snd cb * snd sp)%Z) tab
+                      | None => []
+                      end) (combine row bg).
+
+Definition word_tableZ (m : list (list (option Z))) (bg : list Z) : list (Z * Z) :=
+  fold_left (table_stepZ bg) m [(0, 1)%Z].
 
 Fixpoint tail_tabZ (tab : list (Z * Z)) (thr : Z) (acc : Z) : Z :=
   match tab with
